@@ -42,7 +42,8 @@ def plugin_run(vectors, count):
         shutil.copy(os.path.join(core.VERIF, "harness", "recording.py"), os.path.join(plugin_folder, "recording_plugin.py"))
         with open(os.path.join(plugin_folder, "derived_plugin.py"), "w", encoding="utf-8") as derived_file:
             derived_file.write("from cutplace import checks, fields\n\n\nclass ShoutFieldFormat(fields.ChoiceFieldFormat):\n    pass\n\n\n"
-                               "class KeyCheck(checks.IsUniqueCheck):\n    pass\n")
+                               "class KeyCheck(checks.IsUniqueCheck):\n    pass\n\n\n"
+                               "class DecimalFieldFormat(fields.DecimalFieldFormat):\n    \"\"\"Takes the place of the class it extends.\"\"\"\n")
         jobs_path = os.path.join(folder, "jobs.json")
         sample = [v for v in vectors if len(v["hist"]) == 1][:count]
         with open(jobs_path, "w", encoding="utf-8") as jobs_file:
@@ -70,7 +71,7 @@ interface.import_plugins(%(folder)r)
 gc.collect()
 new_fields = sorted(c.__name__ for c in descendants(fields.AbstractFieldFormat) - before_fields)
 new_checks = sorted(c.__name__ for c in descendants(checks.AbstractCheck) - before_checks)
-if new_fields != ["RecordingFieldFormat", "ShoutFieldFormat"] or new_checks != ["KeyCheck", "RecordingCheck"]:
+if new_fields != ["DecimalFieldFormat", "RecordingFieldFormat", "ShoutFieldFormat"] or new_checks != ["KeyCheck", "RecordingCheck"]:
     print("PLUGINPROBLEM after import_plugins() and a garbage collection the classes of the folder are %%r and %%r" %% (new_fields, new_checks))
     interface.import_plugins(%(folder)r)
     keep = descendants(fields.AbstractFieldFormat) | descendants(checks.AbstractCheck)
@@ -78,12 +79,12 @@ if new_fields != ["RecordingFieldFormat", "ShoutFieldFormat"] or new_checks != [
 from cutplace import errors, validio
 try:
     derived_cid = interface.Cid()
-    derived_cid.read("derived", [["D", "Format", "Delimited"], ["D", "Item delimiter", ","], ["F", "a", "", "", "", "Shout", "x,y"], ["C", "k", "Key", "a"]])
-    kinds = (type(derived_cid.field_formats[0]).__name__, type(derived_cid.check_map["k"]).__name__)
-    if kinds != ("ShoutFieldFormat", "KeyCheck"):
-        print("PLUGINPROBLEM types Shout and Key resolved to %%r" %% (kinds,))
+    derived_cid.read("derived", [["D", "Format", "Delimited"], ["D", "Item delimiter", ","], ["F", "a", "", "", "", "Shout", "x,y"], ["F", "d", "", "X", "", "Decimal"], ["C", "k", "Key", "a"]])
+    kinds = (type(derived_cid.field_formats[0]).__name__, type(derived_cid.check_map["k"]).__name__, type(derived_cid.field_formats[1]).__module__)
+    if kinds != ("ShoutFieldFormat", "KeyCheck", "derived_plugin"):
+        print("PLUGINPROBLEM types Shout, Key and the plugin's Decimal resolved to %%r" %% (kinds,))
     verdicts = []
-    with validio.Reader(derived_cid, io.StringIO("x\\r\\ny\\r\\nx\\r\\nz\\r\\n"), on_error="yield") as reader:
+    with validio.Reader(derived_cid, io.StringIO("x,\\r\\ny,1.5\\r\\nx,\\r\\nz,\\r\\n"), on_error="yield") as reader:
         for item in reader.rows():
             verdicts.append("bad" if isinstance(item, Exception) else "ok")
     if verdicts != ["ok", "ok", "bad", "bad"]:
